@@ -17,10 +17,13 @@ un-acknowledged forced close reports the cause `ErrEngineClosed`, an acknowledge
 context error, `invokeConn` waits for `connChanged` / the client context, `replaceConn` signals, a
 failed transport send is mapped to `pool.ErrConnDead`; and, interpreted from the regenerated statement
 order: `conn` and `connChanged` are read in one `connMux` critical section before `conn.Invoke`,
-`manager.Conn.Run` defers `dead.Signal()` before it runs the protocol, `waitSession` watches `dead`. -/
+`manager.Conn.Run` defers `dead.Signal()` before it runs the protocol, `waitSession` watches `dead`,
+`mtproto.Conn.readLoop` waits for its handler goroutines before it returns, `NotifyAcks` skips an unknown
+id with `continue`. -/
 theorem source_facts :
     cfgOfSource = { unackedRetryable := true, ackedNotRetryable := true, closeUnblocks := true,
-                    sendErrorSurfaces := false, snapshotBeforeInvoke := true, deadAlwaysSignalled := true } := by
+                    sendErrorSurfaces := false, snapshotBeforeInvoke := true, deadAlwaysSignalled := true,
+                    readRegisters := true } := by
   decide
 
 theorem snap_source : cfgOfSource.snapshotBeforeInvoke = true := by decide
@@ -32,6 +35,22 @@ theorem acked_not_resent (n : Nat) (s : State) (h : Reachable cfgOfSource n s) (
     (hq : s.reqs[r]? = some q) (a : Nat) (ha : q.ackSeen = some a) (k : Nat) (hk : (r, k) ∈ s.arrivals) :
     k ≤ a :=
   (((inv_reachable h).req r q hq).2.2.2.1 a ha).2 k hk
+
+/-- **An acknowledgement that was read is not lost**: when the client has read from the wire the
+acknowledgement (or the result) of the copy of `r` it wrote on epoch `k`, and that connection then dies
+(noticed by its read loop; the client is not being closed), the request cannot be failed over (`fail` is
+disabled) — the engine registers the message first (`seen` is enabled and makes the request acknowledged),
+hence (by `acked_not_resent`) the request is not sent again. -/
+theorem read_ack_not_failed_over (s : State) (hc : s.closed = false) (r : Nat) (q : Req) (hq : s.reqs[r]? = some q)
+    (k : Nat) (hp : q.phase = .sent k) (hr : q.read = some k) (hw : k ∉ s.wdead)
+    (ha : (r, k) ∈ s.acks ∨ (r, k) ∈ s.results) :
+    step cfgOfSource s (.fail r) = none ∧
+    ∃ s', step cfgOfSource s (.seen r) = some s' ∧
+      s'.reqs[r]? = some { q with phase := .acked k, ackSeen := some k } := by
+  have hlt := lt_of_getElem? hq
+  refine ⟨?_, setReq s r { q with phase := .acked k, ackSeen := some k }, ?_, by simp [setReq, hlt]⟩
+  · simp [step, hq, hp, readPending, hr, hw, hc, source_facts]
+  · simp [step, seenStep, hq, hp, ha]
 
 /-- **At most one copy per connection**: the server never receives the same request twice on one
 connection epoch (with retransmission disabled; every further copy is a re-send on a new connection). -/
@@ -48,14 +67,16 @@ theorem unacked_not_failed (s : State) (r : Nat) (q : Req) (hq : s.reqs[r]? = so
   rcases hp with hp | ⟨k, hp⟩ | ⟨k, hp⟩ | ⟨w, hp⟩ <;> simp [step, hq, hp, hc, source_facts]
 
 /-- **Fail-over is always possible**: a request inside `conn.Invoke` on a connection that is dead —
-written but not acknowledged, or still waiting for the session of a connection that died before it was
+written but not acknowledged (and no acknowledgement read from the wire is about to be registered), or still waiting for the session of a connection that died before it was
 initialised, or about to write on it — gets a retryable error (`fail` is enabled) and parks. -/
 theorem failed_over (s : State) (r : Nat) (q : Req) (hq : s.reqs[r]? = some q) (k : Nat)
-    (hp : q.phase = .sent k ∨ q.phase = .bound k) (hd : connDead s k = true) :
+    (hp : q.phase = .sent k ∨ q.phase = .bound k) (hd : connDead s k = true)
+    (hr : readPending cfgOfSource s q k = false) :
     ∃ s', step cfgOfSource s (.fail r) = some s' ∧ s'.reqs[r]? = some { q with phase := .parked k } := by
   have hlt := lt_of_getElem? hq
   rcases hp with hp | hp
-  · exact ⟨_, by simp [step, hq, hp, hd, source_facts]; rfl, by simp [setReq, hlt]⟩
+  · rw [source_facts] at hr
+    exact ⟨_, by simp [step, hq, hp, hd, hr, source_facts]; rfl, by simp [setReq, hlt]⟩
   · by_cases hi : k ∈ s.inited
     · exact ⟨_, by simp [step, hq, hp, hd, hi, source_facts]; rfl, by simp [setReq, hlt]⟩
     · exact ⟨_, by simp [step, hq, hp, hd, hi, source_facts]; rfl, by simp [setReq, hlt]⟩
@@ -155,7 +176,7 @@ after the transport died but before the client noticed was returned to the calle
 theorem unsent_error_counterexample :
     ∃ s, run { cfgOfSource with sendErrorSurfaces := true } (init 1) [.inv 0, .bind 0, .init, .kill, .sendFail 0] = some s ∧
       s.closed = false ∧
-      s.reqs[0]? = some { phase := .doneErr, reason := .sendError, ackSeen := none } ∧ s.arrivals = [] ∧
+      s.reqs[0]? = some { phase := .doneErr, reason := .sendError, ackSeen := none, read := none } ∧ s.arrivals = [] ∧
       holdsB s = false := ⟨_, rfl, by decide⟩
 
 /-- Lost wake-up: if `connChanged` is read only after `conn.Invoke` failed, an invocation that fails
@@ -164,7 +185,7 @@ connection is in place. -/
 theorem late_snapshot_counterexample :
     ∃ s, run { cfgOfSource with snapshotBeforeInvoke := false } (init 1)
         [.inv 0, .bind 0, .init, .arr 0 0, .kill, .reconnect, .init, .fail 0] = some s ∧
-      s.alive = true ∧ s.reqs[0]? = some { phase := .parked 1, reason := .none, ackSeen := none } ∧
+      s.alive = true ∧ s.reqs[0]? = some { phase := .parked 1, reason := .none, ackSeen := none, read := none } ∧
       step { cfgOfSource with snapshotBeforeInvoke := false } s (.bind 0) = none ∧ holdsB s = false :=
   ⟨_, rfl, by decide⟩
 
@@ -173,10 +194,22 @@ waiting for that connection's session is stuck: no fail-over, no write, no retur
 theorem dead_unsignalled_counterexample :
     ∃ s, run { cfgOfSource with deadAlwaysSignalled := false } (init 1)
         [.inv 0, .bind 0, .init, .arr 0 0, .kill, .fail 0, .reconnect, .bind 0, .kill, .reconnect, .init] = some s ∧
-      s.reqs[0]? = some { phase := .bound 1, reason := .none, ackSeen := none } ∧ s.alive = true ∧
+      s.reqs[0]? = some { phase := .bound 1, reason := .none, ackSeen := none, read := none } ∧ s.alive = true ∧
       step { cfgOfSource with deadAlwaysSignalled := false } s (.fail 0) = none ∧
       step { cfgOfSource with deadAlwaysSignalled := false } s (.arr 0 2) = none ∧
       step { cfgOfSource with deadAlwaysSignalled := false } s (.retErr 0) = none := ⟨_, rfl, by decide⟩
+
+/-- If a message that was read could still be dropped when the connection's read loop fails (the read
+loop does not wait for its handlers, or `NotifyAcks` stops at an unknown id of a batch), a request whose
+acknowledgement the client has read is failed over and reaches the server a second time; with the
+regenerated facts the same history is impossible. -/
+theorem read_not_registered_counterexample :
+    (∃ s, run { cfgOfSource with readRegisters := false } (init 1)
+        [.inv 0, .bind 0, .init, .arr 0 0, .ack 0 0, .rd 0 0, .kill, .fail 0, .reconnect, .bind 0, .init, .arr 0 1] = some s ∧
+      (0, 0) ∈ s.acks ∧ s.arrivals = [(0, 1), (0, 0)]) ∧
+    run cfgOfSource (init 1)
+        [.inv 0, .bind 0, .init, .arr 0 0, .ack 0 0, .rd 0 0, .kill, .fail 0, .reconnect, .bind 0, .init, .arr 0 1] = none :=
+  ⟨⟨_, rfl, by decide⟩, by decide⟩
 
 /-! Non-vacuity -/
 
@@ -196,5 +229,17 @@ example : ∃ s, Reachable cfgOfSource 1 s ∧ s.reqs.map (·.phase) = [.doneOk]
 example : ∃ s, Reachable cfgOfSource 1 s ∧ s.reqs.map (·.phase) = [.doneErr] ∧ s.arrivals = [(0, 0)] ∧
     holdsB s = true :=
   ⟨_, ⟨[.inv 0, .bind 0, .init, .arr 0 0, .ack 0 0, .seen 0, .kill, .retErr 0, .reconnect], rfl⟩, by decide⟩
+
+/-- The connection dies right after the acknowledgement was read (before the engine has processed it): the
+caller gets an error, the request is not sent again. -/
+example : ∃ s, Reachable cfgOfSource 1 s ∧ s.reqs.map (·.phase) = [.doneErr] ∧ s.arrivals = [(0, 0)] ∧
+    holdsB s = true :=
+  ⟨_, ⟨[.inv 0, .bind 0, .init, .arr 0 0, .ack 0 0, .rd 0 0, .kill, .seen 0, .retErr 0, .reconnect], rfl⟩, by decide⟩
+
+/-- Another task of the connection (a writer) notices the death first: the engine is closed at once, the
+acknowledgement that was read is dropped, the request is failed over and sent again. -/
+example : ∃ s, Reachable cfgOfSource 1 s ∧ s.arrivals = [(0, 1), (0, 0)] ∧ (0, 0) ∈ s.acks ∧ holdsB s = true :=
+  ⟨_, ⟨[.inv 0, .bind 0, .init, .arr 0 0, .ack 0 0, .rd 0 0, .killw, .fail 0, .reconnect, .bind 0, .init, .arr 0 1], rfl⟩,
+    by decide⟩
 
 end TdModel.C29
